@@ -420,6 +420,17 @@ Proof.
   - intros [-> | ->]; try destruct animated; try destruct frame; reflexivity.
 Qed.
 
+(** with the fall-back statement in the source, a non-native ANIM render is a WHOLE render
+    in every respect (branch, resolution, read-from-file); without it only the branch *)
+Lemma effective_method_spec : forall m animated frame,
+  iterm2_effective_method m animated frame =
+    (if iterm2_anim_falls_back && method_eqb m Anim && negb (animated && negb frame)
+     then Whole else m).
+Proof.
+  intros m animated frame. unfold iterm2_effective_method, iterm2_branch.
+  destruct iterm2_anim_falls_back, m, animated, frame; reflexivity.
+Qed.
+
 Lemma read_from_file_gate_spec : forall rff animated readable m oa ra mc alpha,
   read_from_file_gate rff animated readable m oa ra mc alpha = true ->
   rff = true /\ animated = false /\ readable = true /\ m = Whole /\ oa <= ra.
